@@ -273,6 +273,17 @@ def run(ctx):
                'is NOT guarded by a test of the deque\'s own length with an eviction on its full edge: the window can grow without bound for repeated / backward / mixed-stream seqs'), line=pu.line)
 
 
+    # ---------------------------------------------------------------- C20.6
+    ctx.rule('C20.6', 'no surface cuts text inside a character: every byte-offset string operation that panics off a UTF-8 boundary (String::truncate / split_off / insert / remove / drain / replace_range, str::split_at, str range indexing) in rip_tui (fold, accessors, renderers) and in the frame-driven views of the terminal client (rip::tasks_watch, the functions of rip that take the TuiState) sits in a function that derives or tests the offset (is_char_boundary / char_indices / find / len_utf8). Names, ids and text in frames are arbitrary UTF-8; the chips, previews and short ids are cut to fit.')
+    from .common import char_boundary_ops
+    scope6 = [g for p_, g in sorted(P.fns.items()) if g.crate == 'rip_tui' or p_.startswith('rip::tasks_watch::') or (g.crate == 'rip' and any('TuiState' in x for x in (P.sigs.get(p_) or {}).get('inputs', [])))]
+    ops6 = char_boundary_ops(P, scope6)
+    ctx.floor('C20.6', 'byte-offset string operations in the surfaces', len(ops6), 4)
+    for (g, s_, guarded) in ops6:
+        ctx.ob('C20.6', g, 'cut-on-char-boundary:' + s_.name, guarded, '%s %s' % (s_.name, 'with the offset derived / tested in the same function' if guarded else
+               'with an UNCHECKED byte offset: a multi-byte character straddling it panics the surface'), line=s_.line)
+
+
 def same(f, a, b):
     oa, ob = f.origin(a), f.origin(b)
     if oa[0] != ob[0]:
